@@ -72,7 +72,7 @@ func judgeObligations(m *Model, seqs map[seqKey][]*Attempt, sendResolvedOf func(
 					continue
 				}
 				gk := rt.GroupKey(ls)
-				for idx := range rc.Integrations {
+				for _, idx := range rc.IDs() {
 					if !m.accepts(rt.Receiver, idx, t1.Add(-rt.GroupInterval), tau, slowSlack) || m.longInFlight(gk, t1, tau) {
 						continue
 					}
@@ -238,6 +238,10 @@ func judgeObligations(m *Model, seqs map[seqKey][]*Attempt, sendResolvedOf func(
 					}
 					end := u.Add(rt.GroupInterval + deliverySlack)
 					if end.After(tr.End) || m.longInFlight(k.GroupKey, u, end) {
+						continue
+					}
+					// the integration still exists (a reload may have removed it from the receiver) and still sends resolved
+					if !sendResolvedOf(m.CfgAt(u), k.Receiver, k.Idx) || !sendResolvedOf(m.CfgAt(end), k.Receiver, k.Idx) {
 						continue
 					}
 					p := lastOKBefore(k, u)
